@@ -12,7 +12,7 @@ EXEC_API = {
 }
 # would execute SQL through an API whose text/params the model does not follow -> reported
 EXEC_UNMODELLED = {
-    "rusqlite::Connection::execute_batch", "rusqlite::Connection::prepare", "rusqlite::Connection::prepare_cached",
+    "rusqlite::Connection::execute_batch",
     "rusqlite::Connection::query_row_and_then", "rusqlite::Connection::pragma_update", "rusqlite::Connection::pragma_query",
     "rusqlite::Connection::pragma_query_value", "rusqlite::Connection::pragma", "rusqlite::Connection::pragma_update_and_check",
     "rusqlite::Connection::transaction", "rusqlite::Connection::unchecked_transaction", "rusqlite::Connection::savepoint",
@@ -22,7 +22,43 @@ EXEC_UNMODELLED = {
 }
 UNMODELLED_NAMES = set(x.rsplit("::", 1)[-1] for x in EXEC_UNMODELLED)
 
+# prepared statements: `con.prepare[_cached](sql)` then `stmt.query_row(params, f)` / `stmt.execute(params)` is the same
+# statement as `con.query_row(sql, params, f)` / `con.execute(sql, params)` (rusqlite's Connection::query_row is exactly
+# prepare + Statement::query_row); the text and the connection are taken from the prepare call behind the receiver
+PREPARE_API = {"rusqlite::Connection::prepare", "rusqlite::cache::<impl rusqlite::Connection>::prepare_cached"}
+STMT_API = {
+    # callee -> (index of statement receiver, index of params arg, index of row closure or None)
+    "rusqlite::statement::Statement::<'_>::query_row": (0, 1, 2),
+    "rusqlite::statement::Statement::<'_>::execute": (0, 1, None),
+}
+
+
+def prepared_from(t):
+    """(connection term, sql term) of the prepare call a statement receiver term comes from, else None."""
+    n = 0
+    while n < 10:
+        n += 1
+        if t[0] == "mut":
+            t = t[3]
+        elif t[0] == "ok":
+            t = t[1]
+        elif t[0] == "call" and t[1] in P.OK_PRESERVING and t[3]:
+            t = t[3][0]
+        elif t[0] == "phi" and len(t) == 4:
+            hits = [pl for v, pl in t[3] if v in ("Ok",)]
+            if len(hits) != 1:
+                return None
+            t = hits[0]
+        elif t[0] == "call" and t[1] in PREPARE_API and len(t[3]) >= 2:
+            return t[3][0], t[3][1]
+        else:
+            return None
+    return None
+
+
 HARMLESS_API = {
+    "rusqlite::Connection::prepare": "compiles a statement; execution happens in the (modelled) Statement methods",
+    "rusqlite::cache::<impl rusqlite::Connection>::prepare_cached": "compiles (or fetches from the per-connection cache) a statement; execution happens in the Statement methods",
     "rusqlite::Connection::open": "opens the database file with rusqlite's defaults (5000 ms busy timeout)",
     "rusqlite::row::Row::<'stmt>::get": "typed column read",
     "rusqlite::OptionalExtension::optional": "QueryReturnedNoRows -> None",
@@ -186,6 +222,35 @@ def sites(W):
                         s.closure = W.prog.body(ct[1][1])
                     elif ct[0] == "fn":
                         s.closure = W.prog.body(ct[1])       # a named row-mapping function instead of a closure
+                    if s.closure is not None:
+                        s.rows = row_reads(W, s.closure)
+                out.append(s)
+            elif d in STMT_API:
+                pv = pv or W.prov(b)
+                si_, pi, ri = STMT_API[d]
+                args = pv.arg_terms(bb)
+                src = prepared_from(args[si_])
+                if src is None:
+                    unmodelled.append((b, bb, d))
+                    continue
+                s = SqlSite(b, bb, d)
+                s.conn, s.sql_term = src
+                s.texts = resolve_strs(W, b, s.sql_term)
+                if s.texts is not None:
+                    for txt in s.texts:
+                        try:
+                            s.stmts.append(SQL.parse(txt))
+                        except SQL.SqlError as e:
+                            s.errors.append("%s" % e)
+                pt = unwrap_param(args[pi])
+                if pt[0] == "agg" and pt[1] in ("array", "tuple"):
+                    s.params = [unwrap_param(v) for _, v in pt[2]]
+                if ri is not None and len(args) > ri:
+                    ct = args[ri]
+                    if ct[0] == "agg" and isinstance(ct[1], tuple) and ct[1][0] == "closure":
+                        s.closure = W.prog.body(ct[1][1])
+                    elif ct[0] == "fn":
+                        s.closure = W.prog.body(ct[1])
                     if s.closure is not None:
                         s.rows = row_reads(W, s.closure)
                 out.append(s)
